@@ -49,7 +49,7 @@ P('C04',
 P('C06',
   assumptions=[ARITH, A1, A2, A3, A7, 'history oracle: hash_history_contains_hash_twice is an uninterpreted function of the queried hash above the leaf'],
   level_text='Hash-level statement proved for every history: valid_actions_ applies the filter exactly when repetition checking is on, last, to the whole rule list; the filter removes exactly the passing-like actions and only on the 4th step of a capture-free turn; is_passing_like_action(step) <=> result hashes like the turn start or its other-side hash occurred twice (oracle); can_pass(true) likewise; actions that do not end the turn are never withheld.',
-  level_note='Position-level reading ("equals the starting board", "third occurrence") is the hash-level statement under A3 plus C08. Lists of length <= 3 generalise by A1. The history leaf (counting on the linked list) is a bounded obligation under C05.',
+  level_note='Position-level reading ("equals the starting board", "third occurrence") is the hash-level statement under A3 plus C08. Lists of length <= 3 generalise by A1. The history leaf: list construction/observation is proved unbounded by Verus unit list; iteration and counting on the linked list is a bounded obligation under C05.',
   technique=KANI + ' with an uninterpreted history oracle and an uninterpreted passing-like predicate')
 P('C07',
   assumptions=[ARITH, A1, A2],
@@ -92,12 +92,13 @@ P('C17',
   level_note='Complete finite domain, symbolic indices: exhaustive.',
   technique='Kani lemmas over the real table lookups, symbolic indices')
 P('C05',
-  assumptions=[ARITH, A2, A7, 'history oracle above the leaf; the leaf (counting on the linked list) is BOUNDED to lists of length <= 4',
+  assumptions=[ARITH, A2, A7, 'history oracle above the leaf; of the leaf, the list constructors/observers (List::new/append/head/tail/len/is_empty/clone) are proved for lists of every length (Verus unit list, view = Seq), while iteration and counting (List::iter, Iter::next, filter/count in hash_history_contains_hash_twice) are BOUNDED to lists of length <= 4',
+               'std contracts assumed in Verus unit list: Arc::clone returns a pointer to the same value; Option::map_or applies the closure to the payload or returns the default; the three one-expression closures in List::head/tail/len get a typed header and an ensures clause (body text unchanged)',
                'the correspondence between each `requires` of the Verus lemma lemma_turn (verus/history.spec) and the Kani/Verus obligation that proves it on the real code is the table in DESIGN 12.7 (by inspection, not machine-checked)',
                'positions parsed from text start with history == [hash] by reading src/display.rs (FromStr for GameState is not under contract)'],
   level_text='The property is a lemma over contracts, machine-checked at spec level by Verus (verus/history.spec: lemma_turn + lemma_init, ghost sequence of turn-start positions, invariant J): from (h1) the hash is a function of board, side, step (C08 obligations + Verus units pbv/fpb), (h2) a turn-ending action of a capture-free turn is offered only if the result hashes unlike the turn start and its hash does not already occur twice in the history (C06 obligations; no collision assumption needed in this direction), (h3) the history is appended at every turn end and reset exactly at captures (transition obligations), (h4) material never increases and strictly decreases at a capture (C02/C10), (h5) "occurs twice" is counting on the real list (bounded leaf) it follows that the board after a completed turn differs from the board at its start, that board+side occurred at most once before at a turn start, and that the invariant holds again.',
-  level_note='proof + bounded leaf: hash_history_contains_hash_twice and the List API are checked for lists of length <= 4 only (labelled bounded in the evidence, not counted as proved).',
-  technique='Verus spec-level induction lemma over the contracts; ' + KANI + ' for every hypothesis; bounded Kani harnesses for the linked-list leaf')
+  level_note='proof + bounded leaf: List::new/append/head/tail/len/is_empty/clone are proved unbounded (verus_list); List::iter, Iter::next and hash_history_contains_hash_twice are checked for lists of length <= 4 only (labelled bounded in the evidence, not counted as proved).',
+  technique='Verus spec-level induction lemma over the contracts; ' + KANI + ' for every hypothesis; Verus unit on the real linked-list methods (unbounded); bounded Kani harnesses for list iteration/counting')
 P('C10',
   assumptions=[ARITH, A2, 'A5 core::fmt writes what it is given: the line/column layout of the printed diagram is not decided; only the per-cell codec is'],
   level_text='board_wf (word form) is proved equivalent to its per-square form and is pre/postcondition of every mutator (take_action, place); accessors bits_for_piece / player_piece_mask / bits_by_piece_type / piece_type_at_square / piece_type_at_bit equal their definitions over the abstract view at(); Square <-> index <-> bit <-> file/rank for all 64 squares; trap-cleanliness after every step; material limits from the setup invariant plus material-never-increases; diagram letters round-trip.',
@@ -116,7 +117,7 @@ P('C16',
   technique='Kani over symbolic bounded UTF-8 strings with modular stubs of inner parsers; Verus for the seam loop')
 P('C18', level='other',
   assumptions=['A6 Rust guarantees that shared access to Sync data without interior mutability is race-free and deterministic; the "every interleaving equals sequential" clause rests on that theorem and is not checked by a verifier here (Kani has no threads)'],
-  explanation='Send + Sync obligations on the real types are discharged by rustc\'s trait solver on a client crate built against the working tree on every run; a source scan shows there is no interior mutability, no unsafe and no &mut self method on the state types; the persistence of the history list under append is a (bounded) Kani obligation. Not a deductive proof of the interleaving clause.',
+  explanation='Send + Sync obligations on the real types are discharged by rustc\'s trait solver on a client crate built against the working tree on every run; a source scan shows there is no interior mutability, no unsafe and no &mut self method on the state types; the persistence of the history list under append is proved for lists of every length by the Verus unit list (append takes &self and the view of its result is [e] ++ old view) with a bounded Kani companion. Not a deductive proof of the interleaving clause.',
   level_text='Type-level obligations (rustc) + no-interior-mutability scan + persistence obligation on the list; the interleaving clause follows from Rust\'s data-race-freedom guarantee for Sync types without interior mutability.',
   level_note='category other: rustc trait solving and a syntactic scan, not a program verifier. Kani cannot model threads.',
   technique='rustc auto-trait obligations on the real types + source scan')
